@@ -11,6 +11,9 @@ Runs under /venv/bin/python.  Nothing here imports pyndl at module level: the
 scratch copy must be first on sys.path before that happens (`use_scratch`).
 """
 import atexit
+import sys as _sys
+if hasattr(_sys, 'set_int_max_str_digits'):
+    _sys.set_int_max_str_digits(0)       # model rationals of long sequences have thousands of digits
 import fractions
 import hashlib
 import json
@@ -145,7 +148,7 @@ def build_scratch():
         built = 'cache:' + key
     else:
         t0 = time.time()
-        r = subprocess.run([PY, 'build.py'], cwd=d, capture_output=True, text=True)
+        r = subprocess.run([PY, 'build.py'], cwd=d, capture_output=True, text=True, encoding='utf-8', errors='replace')
         sos = [n for n in os.listdir(os.path.join(d, 'pyndl')) if n.endswith('.so')]
         if r.returncode != 0 or len(sos) < 3:
             raise Infra('scratch build of /repo failed:\n' + r.stdout[-2000:] + r.stderr[-4000:])
@@ -181,7 +184,7 @@ def changed_anchors(prop):
     try:
         base = json.load(open(os.path.join(VERIF, 'anchors_baseline.json')))['sha256']
         files = []
-        for line in open(os.path.join(VERIF, 'properties.jsonl')):
+        for line in open(os.path.join(VERIF, 'properties.jsonl'), encoding='utf-8'):
             p = json.loads(line)
             if p['id'] == prop:
                 files = p['anchors']['files']
@@ -203,7 +206,15 @@ def changed_anchors(prop):
 def lake_build(targets):
     t0 = time.time()
     r = subprocess.run(['lake', 'build'] + list(targets), cwd=LEAN_DIR,
-                       capture_output=True, text=True)
+                       capture_output=True, text=True, encoding='utf-8', errors='replace')
+    if r.returncode < 0 or ('error:' not in (r.stdout + r.stderr) and r.returncode != 0):
+        # killed (OOM, signal) or failed without a Lean error: one more attempt, then an infrastructure failure —
+        # never a broken proof obligation
+        r = subprocess.run(['lake', 'build'] + list(targets), cwd=LEAN_DIR,
+                           capture_output=True, text=True, encoding='utf-8', errors='replace')
+        if r.returncode < 0 or ('error:' not in (r.stdout + r.stderr) and r.returncode != 0):
+            raise Infra('lake build was killed or failed without a Lean error (return code %s): %s'
+                        % (r.returncode, (r.stdout + r.stderr)[-600:]))
     return r.returncode == 0, (r.stdout + r.stderr)[-6000:], time.time() - t0
 
 
@@ -218,7 +229,7 @@ def axiom_audit(prop):
     the `theorem` declarations of the property file).  Returns
     (obligations, discharged, details, problems).
     """
-    src = open(os.path.join(LEAN_DIR, 'PyndlProps', prop + '.lean')).read()
+    src = open(os.path.join(LEAN_DIR, 'PyndlProps', prop + '.lean'), encoding='utf-8').read()
     body = strip_lean_comments(src)
     names = re.findall(r'^\s*theorem\s+([A-Za-z_][A-Za-z0-9_\.\']*)', body, re.M)
     ns = re.search(r'^namespace\s+(\S+)', body, re.M)
@@ -232,9 +243,11 @@ def axiom_audit(prop):
     audit = 'import PyndlProps.%s\n' % prop + ''.join('#print axioms %s%s\n' % (prefix, n) for n in names)
     af = os.path.join(LEAN_DIR, '.lake', 'audit_%s_%d.lean' % (prop, os.getpid()))
     os.makedirs(os.path.dirname(af), exist_ok=True)
-    open(af, 'w').write(audit)
+    open(af, 'w', encoding='utf-8').write(audit)
     try:
-        r = subprocess.run(['lake', 'env', 'lean', af], cwd=LEAN_DIR, capture_output=True, text=True)
+        r = subprocess.run(['lake', 'env', 'lean', af], cwd=LEAN_DIR, capture_output=True, text=True, encoding='utf-8', errors='replace')
+        if r.returncode < 0:
+            raise Infra('the axiom audit (lake env lean) was killed: return code %s' % r.returncode)
     finally:
         os.unlink(af)
     out = r.stdout + r.stderr
@@ -274,7 +287,7 @@ def scan_lean_tree():
             if not n.endswith('.lean'):
                 continue
             p = os.path.join(root, n)
-            body = strip_lean_comments(open(p).read())
+            body = strip_lean_comments(open(p, encoding='utf-8').read())
             for bad in ('sorry', 'admit', 'native_decide', 'bv_decide', 'implemented_by'):
                 if re.search(r'\b' + bad + r'\b', body):
                     problems.append('%s: %s' % (os.path.relpath(p, LEAN_DIR), bad))
@@ -338,13 +351,16 @@ class Driver:
         d = tempfile.mkdtemp(prefix='drv-', dir=SCRATCH_ROOT)
         try:
             inp = os.path.join(d, 'in.jsonl')
-            with open(inp, 'w') as f:
+            with open(inp, 'w', encoding='utf-8') as f:
                 for i, r in enumerate(requests):
                     r = dict(r)
                     r['id'] = i
                     f.write(json.dumps(r, ensure_ascii=False) + '\n')
-            with open(inp) as fin:
-                p = subprocess.run([DRIVER], stdin=fin, capture_output=True, text=True, timeout=timeout)
+            with open(inp, 'rb') as fin:
+                try:
+                    p = subprocess.run([DRIVER], stdin=fin, capture_output=True, text=True, encoding='utf-8', timeout=timeout)
+                except subprocess.TimeoutExpired:
+                    raise Infra('the model driver did not answer %d requests within %d s' % (len(requests), timeout))
             if p.returncode != 0:
                 raise Infra('driver crashed: ' + p.stderr[-2000:])
             out = [json.loads(l) for l in p.stdout.split('\n') if l.strip()]
@@ -415,7 +431,7 @@ def known_findings(prop):
     out = []
     p = os.path.join(VERIF, 'known_findings.jsonl')
     if os.path.exists(p):
-        for line in open(p):
+        for line in open(p, encoding='utf-8'):
             line = line.strip()
             if line:
                 e = json.loads(line)
@@ -470,7 +486,7 @@ def write_replay(prop, tier, n, replay):
     d = os.path.join(VERIF, 'replays')
     os.makedirs(d, exist_ok=True)
     p = os.path.join(d, '%s-%s-%d-%d.json' % (prop, tier, seed(), n))
-    with open(p, 'w') as f:
+    with open(p, 'w', encoding='utf-8') as f:
         json.dump(replay, f, indent=1, ensure_ascii=False, default=str)
     return p
 
@@ -531,8 +547,12 @@ def finish(rep, rule, trusted_base, assumptions, checker_cmd, level='proof'):
     evdir = 'evidence' if os.path.realpath(REPO) == '/repo' else 'evidence_other_tree'
     ev['repo'] = os.path.realpath(REPO)
     os.makedirs(os.path.join(VERIF, evdir), exist_ok=True)
-    with open(os.path.join(VERIF, evdir, rep.prop + '.json'), 'w') as f:
-        json.dump(ev, f, indent=1, ensure_ascii=False, default=str)
+    # written atomically (two invocations for the same property may finish together)
+    evpath = os.path.join(VERIF, evdir, rep.prop + '.json')
+    tmp = '%s.%d.tmp' % (evpath, os.getpid())
+    with open(tmp, 'w', encoding='utf-8') as f:
+        json.dump(ev, f, indent=1, ensure_ascii=False, default=str, allow_nan=False)
+    os.replace(tmp, evpath)
     for l in lines:
         print(l)
     print('%s tier=%s seed=%d evaluations=%d distinct_nontrivial=%d obligations=%d discharged=%d '
